@@ -73,9 +73,12 @@ What is proved here (about the model `Cedar/SchemaSyntax.lean`, tied to the code
     `annotated_namespace_roundtrip`  a namespace body whose common types / entity types / actions each carry an annotation map reads
                               back as the same declarations (`annotated_namespace_strip`: exactly those of `fragment_roundtrip`)
                               each with its normalised annotations;
-    `AnnotatedFragmentRoundtrip` (def, NOT proved): the same for whole fragments incl. annotations on `namespace` blocks
-                              (`parseItemsA`); annotations on record ATTRIBUTES are outside the model; values are token-level
-                              strings (escaping belongs to the lexer).
+    `annotated_fragment_roundtrip`  a WHOLE annotated fragment (`FragmentA`: annotations on `namespace` blocks and on every
+                              declaration) printed and parsed by `parseItemsA` (`Annotated<Namedspace> | Annotated<Decl>`) gives the
+                              items of the un-annotated theorem, each with its normalised annotation map, and these convert to
+                              `normFragment f.strip`; non-vacuity: `demoFragmentA`.  Annotations on record ATTRIBUTES are outside the
+                              model; values are token-level strings (escaping belongs to the lexer); the JSON-side pairing of
+                              converted entries with their annotations is not modelled (AST level only).
 NOT modelled (covered only by the four-way differential run of harness/src/c09.rs): the lexer and string escapes, annotations on record
 attributes, action `attributes`, records with additional attributes, JSON (de)serialisation, and everything `ValidatorSchema`
 construction does after name resolution (common-type inlining, cycle detection, hierarchy closure, action entities).
@@ -790,9 +793,8 @@ def demoNsA : NamespaceA :=
     entities := [([("a", none), ("b", some "x")], "Color", .enum ["red", "dark blue"])],
     actions := [([], "view doc", demoAction)] }
 
-example : ∃ ds, parseDeclListA 10 (printNsA demoNsA ++ [.rb]) = some (ds, [.rb]) ∧
-    ds.map (·.1) = [[("doc", some "types")], [("a", some ""), ("b", some "x")], []] := by
-  refine ⟨_, annotated_namespace_roundtrip demoNsA ?_ ?_ 10 [.rb] (by decide) (by decide) (by decide), by decide +kernel⟩
+theorem demoNsA_ok : WFNs demoNsA.strip ∧ AnnsOKNs demoNsA := by
+  refine ⟨?_, ?_⟩
   · refine ⟨?_, ?_, ?_⟩
     · intro x hx
       simp only [demoNsA, NamespaceA.strip, List.map_cons, List.map_nil, List.mem_cons, List.not_mem_nil, or_false] at hx
@@ -813,24 +815,45 @@ example : ∃ ds, parseDeclListA 10 (printNsA demoNsA ++ [.rb]) = some (ds, [.rb
     · exact ⟨by intro y hy; simp at hy; rcases hy with rfl | rfl <;> decide +kernel, by simp [KeysSorted]; decide +kernel⟩
     · exact ⟨by intro y hy; simp at hy, by simp [KeysSorted]⟩
 
-/-- the annotated items a printed annotated fragment denotes: the declarations of `itemsOf` (un-annotated theorem), every annotation
-map in its `normAnns` form -/
-def itemsOfA (f : FragmentA) : List ItemA :=
-  (match f.empty with
-    | some d => (triplesOfNsA d).map (fun x => ItemA.decl (normAnns x.1) x.2.2)
-    | none => []) ++
-  f.named.map fun x => ItemA.ns (normAnns x.2.1) x.1 ((triplesOfNsA x.2.2).map fun y => (normAnns y.1, y.2.2))
+example : ∃ ds, parseDeclListA 10 (printNsA demoNsA ++ [.rb]) = some (ds, [.rb]) ∧
+    ds.map (·.1) = [[("doc", some "types")], [("a", some ""), ("b", some "x")], []] :=
+  ⟨_, annotated_namespace_roundtrip demoNsA demoNsA_ok.1 demoNsA_ok.2 10 [.rb] (by decide) (by decide) (by decide), by decide +kernel⟩
 
-def AnnsOKFrag (f : FragmentA) : Prop :=
-  (∀ d, f.empty = some d → AnnsOKNs d) ∧ (∀ x ∈ f.named, WFAnns x.2.1 ∧ KeysSorted x.2.1 ∧ AnnsOKNs x.2.2)
-
-/-- the WHOLE-FRAGMENT statement for annotations (annotations on `namespace` blocks and on every declaration; annotations on record
-attributes are outside the model): the printed annotated fragment parses to `itemsOfA f` — whose stripped form is `itemsOf f.strip`,
-so that `fragment_roundtrip` gives the JSON content.  Proved so far: the declaration lists (`annotated_namespace_roundtrip`) and the
-annotation maps (`annotations_roundtrip`); the induction over the `namespace` blocks of `parseItemsA` is not done. -/
-def AnnotatedFragmentRoundtrip : Prop :=
-  ∀ f : FragmentA, WFFrag f.strip → AnnsOKFrag f →
+/-- WHOLE ANNOTATED FRAGMENT: annotations on `namespace` blocks and on every declaration (`FragmentA`; the empty namespace has none of
+its own, as the JSON deserialiser demands).  The printed fragment parses (`parseItemsA`: `Annotated<Namedspace> | Annotated<Decl>`) to
+`itemsOfA f` — every annotation map in its `normAnns` form (same keys and values, absent value ↦ `""`) — and, forgetting the
+annotations, these are exactly the items of the un-annotated theorem, which to_json_schema.rs converts to `normFragment f.strip`.
+Not covered: annotations on record ATTRIBUTES (inside type expressions), and the JSON-side pairing of each converted entry with its
+annotations (`convert_entity_decl` clones the annotations of a multi-name declaration onto every name; trivial for printed
+fragments, where every declaration has one name). -/
+theorem annotated_fragment_roundtrip (f : FragmentA) (hw : WFFragA f) (hs : SortedFrag f.strip) :
     parseItemsA ((printFragmentA f).length + 1) (printFragmentA f) = some (itemsOfA f) ∧
-    (itemsOfA f).map ItemA.strip = itemsOf f.strip
+    toJsonFragment ((itemsOfA f).map ItemA.strip) = some (normFragment f.strip) := by
+  refine ⟨parseItemsA_fragment f hw.1 hw.2, ?_⟩
+  rw [itemsOfA_strip]
+  exact toJsonFragment_itemsOf f.strip (wfFrag_strip f hw) hs
+
+/-- `@doc("ns") @internal namespace NS { <demoNsA> }` -/
+def demoFragmentA : FragmentA := ⟨none, [(⟨[], "NS"⟩, [("doc", some "ns"), ("internal", none)], demoNsA)]⟩
+
+example : ∃ its, parseItemsA ((printFragmentA demoFragmentA).length + 1) (printFragmentA demoFragmentA) = some its ∧
+    its.map (fun | .ns a q ds => (a, q, ds.map (·.1)) | .decl a _ => (a, ⟨[], ""⟩, [])) =
+      [([("doc", some "ns"), ("internal", some "")], ⟨[], "NS"⟩, [[("doc", some "types")], [("a", some ""), ("b", some "x")], []])] := by
+  refine ⟨_, (annotated_fragment_roundtrip demoFragmentA ⟨by intro d hd; simp [demoFragmentA] at hd, ?_⟩ ?_).1, by decide +kernel⟩
+  · intro x hx
+    simp only [demoFragmentA, List.mem_cons, List.not_mem_nil, or_false] at hx
+    subst hx
+    refine ⟨by simp [QName.comps]; decide, by decide, demoNsA_ok.1, ?_, ?_, demoNsA_ok.2⟩
+    · intro y hy; simp at hy; rcases hy with rfl | rfl <;> decide +kernel
+    · simp [KeysSorted]; decide +kernel
+  · refine ⟨by intro d hd; simp [demoFragmentA, FragmentA.strip] at hd, ?_⟩
+    intro x hx
+    simp only [demoFragmentA, FragmentA.strip, List.map_cons, List.map_nil, List.mem_cons, List.not_mem_nil, or_false] at hx
+    subst hx
+    refine ⟨?_, ?_, ?_⟩ <;> intro y hy <;>
+      simp only [demoNsA, NamespaceA.strip, List.map_cons, List.map_nil, List.mem_cons, List.not_mem_nil, or_false] at hy <;> subst hy
+    · simp [SortedT, SortedA, keysJ]
+    · trivial
+    · exact demoAction_wf.2
 
 end Cedar.C09
